@@ -4,305 +4,12 @@ package connectconformance
 
 import (
 	"fmt"
-	"sort"
 	"strings"
 	"testing"
 
-	conformancev1 "connectrpc.com/conformance/internal/gen/proto/go/connectrpc/conformance/v1"
 	"connectrpc.com/conformance/internal/verifkit"
-	"google.golang.org/protobuf/encoding/protojson"
 	"pgregory.net/rapid"
 )
-
-// ---------------------------------------------------------------- model
-//
-// Written from docs/configuring_and_running_tests.md, config.proto and the
-// statement of C06; shares no code with config.go.
-
-type vfFeat struct {
-	versions, protocols, codecs, compressions, streams []int32
-	h2c, tls, certs, trailers, halfH1, get, limit      bool
-}
-
-// vfTri is a tri-state flag: 0 absent, 1 true, 2 false.
-type vfTri int
-
-func (t vfTri) val(def bool) bool {
-	switch t {
-	case 1:
-		return true
-	case 2:
-		return false
-	}
-	return def
-}
-
-func (t vfTri) ptr() *bool {
-	switch t {
-	case 1:
-		b := true
-		return &b
-	case 2:
-		b := false
-		return &b
-	}
-	return nil
-}
-
-type vfCfgEntry struct {
-	Version, Protocol, Codec, Compression, Stream int32
-	TLS, Certs, Limit                             vfTri
-}
-
-type vfCfg struct {
-	Versions, Protocols, Codecs, Compressions, Streams []int32
-	H2C, TLS, Certs, Trailers, HalfH1, Get, Limit      vfTri
-	Include, Exclude                                   []vfCfgEntry
-}
-
-func vfHas(s []int32, v int32) bool {
-	for _, x := range s {
-		if x == v {
-			return true
-		}
-	}
-	return false
-}
-
-// vfResolve applies the documented defaults. contradiction != "" means the
-// features are contradictory by the rules named in the statement/docs.
-func vfResolve(c vfCfg) (f vfFeat, contradiction string) {
-	f = vfFeat{
-		versions: c.Versions, protocols: c.Protocols, codecs: c.Codecs, compressions: c.Compressions, streams: c.Streams,
-		h2c: c.H2C.val(true), tls: c.TLS.val(true), certs: c.Certs.val(false), trailers: c.Trailers.val(true),
-		halfH1: c.HalfH1.val(false), get: c.Get.val(true), limit: c.Limit.val(true),
-	}
-	if f.certs && !f.tls {
-		return f, "client certs without TLS"
-	}
-	if len(f.versions) == 0 {
-		// "If not configured, support is assumed for HTTP 1.1 and HTTP/2" - HTTP/2
-		// only as far as it is possible at all (needs TLS or H2C).
-		if f.tls || f.h2c {
-			f.versions = []int32{1, 2}
-		} else {
-			f.versions = []int32{1}
-		}
-	} else if c.H2C == 1 && !vfHas(f.versions, 2) {
-		return f, "H2C declared without HTTP/2"
-	}
-	if vfHas(f.versions, 3) && !f.tls {
-		return f, "HTTP/3 without TLS"
-	}
-	if vfHas(f.versions, 2) && !f.tls && !f.h2c {
-		return f, "HTTP/2 without TLS or H2C"
-	}
-	has2 := vfHas(f.versions, 2)
-	if vfHas(f.protocols, 2) && !f.trailers {
-		return f, "gRPC without trailers"
-	}
-	if vfHas(f.protocols, 2) && !has2 {
-		return f, "gRPC without HTTP/2"
-	}
-	if len(f.protocols) == 0 {
-		if f.trailers && has2 {
-			f.protocols = []int32{1, 2, 3}
-		} else {
-			f.protocols = []int32{1, 3}
-		}
-	}
-	if len(f.codecs) == 0 {
-		f.codecs = []int32{1, 2}
-	}
-	if len(f.compressions) == 0 {
-		f.compressions = []int32{1, 2}
-	}
-	onlyH1 := !has2 && !vfHas(f.versions, 3)
-	if vfHas(f.streams, 5) && onlyH1 {
-		return f, "full-duplex with only HTTP/1.1"
-	}
-	if vfHas(f.streams, 4) && onlyH1 && !f.halfH1 {
-		return f, "half-duplex with only HTTP/1.1"
-	}
-	if len(f.streams) == 0 {
-		f.streams = []int32{1, 2, 3}
-		if !onlyH1 || f.halfH1 {
-			f.streams = append(f.streams, 4)
-		}
-		if !onlyH1 {
-			f.streams = append(f.streams, 5)
-		}
-	}
-	return f, ""
-}
-
-// vfPossible is the model-free validity predicate (the seven impossibility
-// rules of the statement), relative to the two features it mentions.
-func vfPossible(t configCase, h2c, halfH1 bool) string {
-	switch {
-	case t.Protocol == 2 && t.Version != 2:
-		return "gRPC not over HTTP/2"
-	case t.Version == 3 && !t.UseTLS:
-		return "HTTP/3 without TLS"
-	case t.Version == 2 && !t.UseTLS && !h2c:
-		return "cleartext HTTP/2 without H2C support"
-	case t.UseTLSClientCerts && !t.UseTLS:
-		return "client certs without TLS"
-	case t.StreamType == 5 && t.Version == 1:
-		return "full-duplex over HTTP/1.1"
-	case t.StreamType == 4 && t.Version == 1 && !halfH1:
-		return "half-duplex over HTTP/1.1 not declared"
-	case t.UseConnectGET && t.Protocol != 1:
-		return "GET without Connect"
-	case t.Codec == 3:
-		return "deprecated text codec"
-	case t.Version < 1 || t.Version > 3 || t.Protocol < 1 || t.Protocol > 3 || t.Codec < 1 || t.Compression < 1 || t.Compression > 6 || t.StreamType < 1 || t.StreamType > 5:
-		return "unspecified axis value"
-	}
-	return ""
-}
-
-func vfBools(allowTrue bool) []bool {
-	if allowTrue {
-		return []bool{false, true}
-	}
-	return []bool{false}
-}
-
-// vfExpand: all possible tuples over the given axis values.
-func vfExpand(f vfFeat, versions, protocols, codecs, comps, streams []int32, tls, certs, limit []bool) map[configCase]struct{} {
-	out := map[configCase]struct{}{}
-	for _, v := range versions {
-		for _, p := range protocols {
-			for _, c := range codecs {
-				for _, z := range comps {
-					for _, s := range streams {
-						for _, t := range tls {
-							for _, cc := range certs {
-								for _, l := range limit {
-									for _, g := range vfBools(f.get) {
-										tc := configCase{
-											Version: conformancev1.HTTPVersion(v), Protocol: conformancev1.Protocol(p),
-											Codec: conformancev1.Codec(c), Compression: conformancev1.Compression(z),
-											StreamType: conformancev1.StreamType(s), UseTLS: t, UseTLSClientCerts: cc,
-											UseConnectGET: g, UseMessageReceiveLimit: l,
-										}
-										if vfPossible(tc, f.h2c, f.halfH1) == "" {
-											out[tc] = struct{}{}
-										}
-									}
-								}
-							}
-						}
-					}
-				}
-			}
-		}
-	}
-	return out
-}
-
-func vfCasesOfFeatures(f vfFeat) map[configCase]struct{} {
-	return vfExpand(f, f.versions, f.protocols, f.codecs, f.compressions, f.streams, vfBools(f.tls), vfBools(f.certs), vfBools(f.limit))
-}
-
-func vfOr(v int32, all []int32) []int32 {
-	if v != 0 {
-		return []int32{v}
-	}
-	return all
-}
-
-func vfTriBools(t vfTri, supported bool) []bool {
-	switch t {
-	case 1:
-		return []bool{true}
-	case 2:
-		return []bool{false}
-	}
-	return vfBools(supported)
-}
-
-// vfEntry: an entry's set fields fix the axis; omitted ones range over the features.
-func vfEntry(f vfFeat, e vfCfgEntry) map[configCase]struct{} {
-	return vfExpand(f, vfOr(e.Version, f.versions), vfOr(e.Protocol, f.protocols), vfOr(e.Codec, f.codecs),
-		vfOr(e.Compression, f.compressions), vfOr(e.Stream, f.streams),
-		vfTriBools(e.TLS, f.tls), vfTriBools(e.Certs, f.certs), vfTriBools(e.Limit, f.limit))
-}
-
-// ---------------------------------------------------------------- to proto
-
-func vfEnums[T ~int32](vals []int32) []T {
-	var out []T
-	for _, v := range vals {
-		out = append(out, T(v))
-	}
-	return out
-}
-
-func vfEntryProto(e vfCfgEntry) *conformancev1.ConfigCase {
-	return &conformancev1.ConfigCase{
-		Version: conformancev1.HTTPVersion(e.Version), Protocol: conformancev1.Protocol(e.Protocol),
-		Codec: conformancev1.Codec(e.Codec), Compression: conformancev1.Compression(e.Compression),
-		StreamType: conformancev1.StreamType(e.Stream), UseTls: e.TLS.ptr(), UseTlsClientCerts: e.Certs.ptr(),
-		UseMessageReceiveLimit: e.Limit.ptr(),
-	}
-}
-
-func vfCfgProto(c vfCfg) *conformancev1.Config {
-	cfg := &conformancev1.Config{Features: &conformancev1.Features{
-		Versions: vfEnums[conformancev1.HTTPVersion](c.Versions), Protocols: vfEnums[conformancev1.Protocol](c.Protocols),
-		Codecs: vfEnums[conformancev1.Codec](c.Codecs), Compressions: vfEnums[conformancev1.Compression](c.Compressions),
-		StreamTypes: vfEnums[conformancev1.StreamType](c.Streams),
-		SupportsH2C: c.H2C.ptr(), SupportsTls: c.TLS.ptr(), SupportsTlsClientCerts: c.Certs.ptr(), SupportsTrailers: c.Trailers.ptr(),
-		SupportsHalfDuplexBidiOverHttp1: c.HalfH1.ptr(), SupportsConnectGet: c.Get.ptr(), SupportsMessageReceiveLimit: c.Limit.ptr(),
-	}}
-	for _, e := range c.Include {
-		cfg.IncludeCases = append(cfg.IncludeCases, vfEntryProto(e))
-	}
-	for _, e := range c.Exclude {
-		cfg.ExcludeCases = append(cfg.ExcludeCases, vfEntryProto(e))
-	}
-	return cfg
-}
-
-func vfCfgBytes(c vfCfg) []byte {
-	data, err := protojson.Marshal(vfCfgProto(c))
-	if err != nil {
-		panic(err)
-	}
-	if string(data) == "{}" {
-		data = []byte("features: {}\n")
-	}
-	return data
-}
-
-func vfCaseStr(t configCase) string {
-	return fmt.Sprintf("{v%d p%d c%d z%d s%d tls=%v certs=%v get=%v limit=%v cvm=%d}", t.Version, t.Protocol, t.Codec, t.Compression, t.StreamType,
-		t.UseTLS, t.UseTLSClientCerts, t.UseConnectGET, t.UseMessageReceiveLimit, t.ConnectVersionMode)
-}
-
-func vfSetDiff(a, b map[configCase]struct{}) []string {
-	var out []string
-	for k := range a {
-		if _, ok := b[k]; !ok {
-			out = append(out, vfCaseStr(k))
-		}
-	}
-	sort.Strings(out)
-	if len(out) > 6 {
-		out = append(out[:6], fmt.Sprintf("... (%d in total)", len(out)))
-	}
-	return out
-}
-
-func vfToSet(cases []configCase) (map[configCase]struct{}, bool) {
-	set := map[configCase]struct{}{}
-	for _, c := range cases {
-		set[c] = struct{}{}
-	}
-	return set, len(set) == len(cases)
-}
 
 // vfC06Check is the oracle.
 func vfC06Check(c vfCfg) error {
@@ -410,64 +117,6 @@ func vfC06Meta(c vfCfg, perm vfCfg, extraExclude vfCfgEntry) error {
 		}
 	}
 	return nil
-}
-
-// ---------------------------------------------------------------- generators
-
-func vfGenTri(t *rapid.T, label string) vfTri {
-	switch rapid.IntRange(0, 3).Draw(t, label) {
-	case 0:
-		return 1
-	case 1:
-		return 2
-	}
-	return 0
-}
-
-func vfGenSubset(t *rapid.T, label string, max int32, extra ...int32) []int32 {
-	if rapid.IntRange(0, 2).Draw(t, label+"-empty") == 0 {
-		return nil
-	}
-	universe := []int32{}
-	for i := int32(1); i <= max; i++ {
-		universe = append(universe, i)
-	}
-	universe = append(universe, extra...)
-	n := rapid.IntRange(1, len(universe)+1).Draw(t, label+"-n")
-	var out []int32
-	for i := 0; i < n; i++ {
-		out = append(out, rapid.SampledFrom(universe).Draw(t, label))
-	}
-	return out
-}
-
-func vfGenEntry(t *rapid.T, label string) vfCfgEntry {
-	opt := func(l string, max int32) int32 {
-		if rapid.Bool().Draw(t, label+l+"-set") {
-			return rapid.Int32Range(1, max).Draw(t, label+l)
-		}
-		return 0
-	}
-	return vfCfgEntry{
-		Version: opt("version", 3), Protocol: opt("protocol", 3), Codec: opt("codec", 3), Compression: opt("compression", 6),
-		Stream: opt("stream", 5), TLS: vfGenTri(t, label+"tls"), Certs: vfGenTri(t, label+"certs"), Limit: vfGenTri(t, label+"limit"),
-	}
-}
-
-func vfGenCfg(t *rapid.T) vfCfg {
-	c := vfCfg{
-		Versions: vfGenSubset(t, "versions", 3), Protocols: vfGenSubset(t, "protocols", 3), Codecs: vfGenSubset(t, "codecs", 2, 3),
-		Compressions: vfGenSubset(t, "compressions", 6), Streams: vfGenSubset(t, "streams", 5),
-		H2C: vfGenTri(t, "h2c"), TLS: vfGenTri(t, "tls"), Certs: vfGenTri(t, "certs"), Trailers: vfGenTri(t, "trailers"),
-		HalfH1: vfGenTri(t, "halfh1"), Get: vfGenTri(t, "get"), Limit: vfGenTri(t, "limit"),
-	}
-	for i, n := 0, rapid.IntRange(0, 3).Draw(t, "ninclude"); i < n; i++ {
-		c.Include = append(c.Include, vfGenEntry(t, "inc"))
-	}
-	for i, n := 0, rapid.IntRange(0, 3).Draw(t, "nexclude"); i < n; i++ {
-		c.Exclude = append(c.Exclude, vfGenEntry(t, "exc"))
-	}
-	return c
 }
 
 func vfEntryHasOmitted(e vfCfgEntry) bool {
